@@ -1863,6 +1863,7 @@ func (ls *LState) PCall(nargs, nret int, errfunc *LFunction) (err error) {
 						}
 						ls.stack.SetSp(sp)
 						ls.currentFrame = ls.stack.Last()
+						ls.closeUpvalues(base)
 						ls.reg.SetTop(base)
 					}
 				}()
@@ -1873,6 +1874,9 @@ func (ls *LState) PCall(nargs, nret int, errfunc *LFunction) (err error) {
 			}
 			ls.stack.SetSp(sp)
 			ls.currentFrame = ls.stack.Last()
+			// registers at and above base are released now: close the upvalues that still point at them (raiseError
+			// skips that when an error handler is installed, and a Go panic in a host function never did it)
+			ls.closeUpvalues(base)
 			ls.reg.SetTop(base)
 		}
 		ls.stack.SetSp(sp)
